@@ -1,11 +1,13 @@
 (* C08 — Each Gibbs block draws from the exact full conditional of the documented model.
    Statements only; every proof is `exact <lemma from Proofs/>`.
    Model: Model/Gibbs.v (the sampler), Model/Mvn.v; specification: Model/GibbsSpec.v
-   (energy = -2 log joint of the documented model, for an arbitrary function ln). *)
+   (energy = -2 log joint of the documented model given the horseshoe precisions, energy_hs = -2 log
+   of the complete joint including the horseshoe hyper-priors, for an arbitrary function ln). *)
 From Coq Require Import String.
 From Coq Require Import ZArith List QArith Qcanon.
 From Batchie Require Import Lib.Sexp Lib.Num Generated.Consts Model.Gibbs Model.GibbsSpec Model.Mvn
-  Proofs.C08Sums Proofs.C08Gauss Proofs.C08Cache Proofs.C08Misc Proofs.C08Mgp Proofs.C08Mvn Proofs.C08Final.
+  Proofs.C08Sums Proofs.C08Gauss Proofs.C08Cache Proofs.C08Misc Proofs.C08Mgp Proofs.C08Mvn Proofs.C08Final
+  Proofs.C08HorseshoeAlg Proofs.C08Horseshoe.
 Import ListNotations.
 Open Scope Qc_scope.
 
@@ -150,6 +152,223 @@ Theorem C08_gamma_block_gam_is_the_draw : forall g d orc dd r s,
   exists k, prog_gam g d orc (dd :: r) s = Draw (DGamma (gam_shape g dd) (1 + gam_half_ss g s dd + jitter)) k.
 Proof. exact prog_gam_head. Qed.
 Print Assumptions C08_gamma_block_gam_is_the_draw.
+
+(* ------------------------------------------------------------------ horseshoe steps *)
+(* _prec_V0_step, _prec_V2_step, _prec_V1_step: auxiliary of phi, phi, auxiliary of eta, eta.
+   energy_hs ln j = -2 log of the complete joint: energy + the half-Cauchy hyper-priors of the
+   scales 1/sqrt(phi), 1/sqrt(eta) in their gamma-mixture form (p | a ~ Gamma(1/2, rate a),
+   a ~ Gamma(1/2, rate 1), normalising constants included) + the stability tilt 2 j p on every
+   horseshoe precision p.  A vectorised draw Gamma(sh, rates) of a whole group x is the full
+   conditional when  energy_hs(x) - energy_hs(x') = sum_i gform sh rates_i x_i x'_i  for all x, x'
+   (gform c r t t' = -2 (c-1) (ln t - ln t') + 2 r (t - t')): the conditional density factorises
+   over the entries and entry i is Gamma(sh, rates_i). *)
+
+(* each step is exactly four gamma draws, with shapes 1, 1, 1, (1 + n_drugdoses)/2 *)
+Theorem C08_horseshoe_draws_V0 : forall g d orc s,
+  exists r1 k1, prog_prec_V0 g d orc s = Draw (DGammaVec 1 r1) k1 /\ forall v1,
+  exists r2 k2, k1 v1 = Draw (DGammaVec 1 r2) k2 /\ forall v2,
+  exists r3 k3, k2 v2 = Draw (DGamma 1 r3) k3 /\ forall v3,
+  exists r4 k4, k3 v3 = Draw (DGamma (half * (1 + qnat (c_ndd g))) r4) k4 /\ forall v4,
+  exists sfin, k4 v4 = Ret sfin.
+Proof. exact hs_shape0. Qed.
+Print Assumptions C08_horseshoe_draws_V0.
+
+Theorem C08_horseshoe_draws_V2 : forall g d orc s,
+  exists r1 k1, prog_prec_V2 g d orc s = Draw (DGammaMat 1 r1) k1 /\ forall v1,
+  exists r2 k2, k1 v1 = Draw (DGammaMat 1 r2) k2 /\ forall v2,
+  exists r3 k3, k2 v2 = Draw (DGammaVec 1 r3) k3 /\ forall v3,
+  exists r4 k4, k3 v3 = Draw (DGammaVec (half * (1 + qnat (c_ndd g))) r4) k4 /\ forall v4,
+  exists sfin, k4 v4 = Ret sfin.
+Proof. exact hs_shape2. Qed.
+Print Assumptions C08_horseshoe_draws_V2.
+
+Theorem C08_horseshoe_draws_V1 : forall g d orc s,
+  exists r1 k1, prog_prec_V1 g d orc s = Draw (DGammaMat 1 r1) k1 /\ forall v1,
+  exists r2 k2, k1 v1 = Draw (DGammaMat 1 r2) k2 /\ forall v2,
+  exists r3 k3, k2 v2 = Draw (DGammaVec 1 r3) k3 /\ forall v3,
+  exists r4 k4, k3 v3 = Draw (DGammaVec (half * (1 + qnat (c_ndd g))) r4) k4 /\ forall v4,
+  exists sfin, k4 v4 = Ret sfin.
+Proof. exact hs_shape1. Qed.
+Print Assumptions C08_horseshoe_draws_V1.
+
+(* --- V0 family (one global precision eta0) --- *)
+(* first draw: the auxiliaries of phi0 (any j: the tilt does not involve them) *)
+Theorem C08_horseshoe_phiaux0 : forall ln g d orc j s sh rates k,
+  length (phi0 s) = c_ndd g ->
+  prog_prec_V0 g d orc s = Draw (DGammaVec sh rates) k ->
+  forall u x x',
+    energy_hs ln j g d s (set_a_phi0 u x) - energy_hs ln j g d s (set_a_phi0 u x')
+    = sumn (c_ndd g) (fun m => gform ln sh (vnth rates m) (vnth x m) (vnth x' m)).
+Proof. exact hs_phiaux0. Qed.
+Print Assumptions C08_horseshoe_phiaux0.
+
+(* second draw: phi0 given the drawn auxiliaries a *)
+Theorem C08_horseshoe_phi0 : forall (ln : Qc -> Qc) g d orc,
+  (forall a b, 0 < a -> 0 < b -> ln (a * b) = ln a + ln b) ->
+  forall s d1 k1 a sh rates k2,
+  prog_prec_V0 g d orc s = Draw d1 k1 -> k1 (VV a) = Draw (DGammaVec sh rates) k2 ->
+  0 < eta0 s ->
+  forall u x x', (forall m, (m < c_ndd g)%nat -> 0 < vnth x m) -> (forall m, (m < c_ndd g)%nat -> 0 < vnth x' m) ->
+    energy_hs ln jitter g d (set_phi0 s x) (set_a_phi0 u a) - energy_hs ln jitter g d (set_phi0 s x') (set_a_phi0 u a)
+    = sumn (c_ndd g) (fun m => gform ln sh (vnth rates m) (vnth x m) (vnth x' m)).
+Proof. exact hs_phi0. Qed.
+Print Assumptions C08_horseshoe_phi0.
+
+(* third draw: the auxiliary of eta0, in any state with the same eta0 (the phi0 update in between
+   does not matter) *)
+Theorem C08_horseshoe_etaaux0 : forall ln g d orc j s d1 k1 v1 d2 k2 v2 sh r k3,
+  prog_prec_V0 g d orc s = Draw d1 k1 -> k1 v1 = Draw d2 k2 -> k2 v2 = Draw (DGamma sh r) k3 ->
+  forall s1 u t t', eta0 s1 = eta0 s ->
+    energy_hs ln j g d s1 (set_a_eta0 u t) - energy_hs ln j g d s1 (set_a_eta0 u t') = gform ln sh r t t'.
+Proof. exact hs_etaaux0. Qed.
+Print Assumptions C08_horseshoe_etaaux0.
+
+(* fourth draw: eta0 given the drawn auxiliary b, in the state sfin the step returns (it holds the
+   new, clipped phi0; its eta0 slot is overwritten by the candidate) *)
+Theorem C08_horseshoe_eta0 : forall (ln : Qc -> Qc) g d orc,
+  (forall a b, 0 < a -> 0 < b -> ln (a * b) = ln a + ln b) ->
+  forall s d1 k1 v1 d2 k2 v2 d3 k3 b sh r k4 v4 sfin,
+  prog_prec_V0 g d orc s = Draw d1 k1 -> k1 v1 = Draw d2 k2 -> k2 v2 = Draw d3 k3 ->
+  k3 (VQ b) = Draw (DGamma sh r) k4 -> k4 v4 = Ret sfin ->
+  (forall m, (m < c_ndd g)%nat -> 0 < vnth (phi0 sfin) m) ->
+  forall u t t', 0 < t -> 0 < t' ->
+    energy_hs ln jitter g d (set_eta0 sfin t) (set_a_eta0 u b) - energy_hs ln jitter g d (set_eta0 sfin t') (set_a_eta0 u b)
+    = gform ln sh r t t'.
+Proof. exact hs_eta0. Qed.
+Print Assumptions C08_horseshoe_eta0.
+
+(* what the step stores: the clipped draws x (phi0) and y (eta0); nothing else the joint reads changes *)
+Theorem C08_horseshoe_stored0 : forall g d orc s d1 k1 v1 d2 k2 x d3 k3 v3 d4 k4 y sfin,
+  prog_prec_V0 g d orc s = Draw d1 k1 -> k1 v1 = Draw d2 k2 -> k2 (VV x) = Draw d3 k3 ->
+  k3 v3 = Draw d4 k4 -> k4 (VQ y) = Ret sfin ->
+  eta0 sfin = clipC orc (nobs d) y /\ length (phi0 sfin) = c_ndd g /\
+  (forall m, (m < c_ndd g)%nat -> vnth (phi0 sfin) m = clipC orc (n_occ d m) (vnth x m)) /\ off0 sfin s.
+Proof. exact hs_stored0. Qed.
+Print Assumptions C08_horseshoe_stored0.
+
+(* --- V2 family (one global precision per embedding dimension) --- *)
+Theorem C08_horseshoe_phiaux2 : forall ln g d orc j s sh rates k,
+  length (phi2 s) = c_ndd g -> (forall m, (m < c_ndd g)%nat -> length (rnth (phi2 s) m) = c_D g) ->
+  prog_prec_V2 g d orc s = Draw (DGammaMat sh rates) k ->
+  forall u x x',
+    energy_hs ln j g d s (set_a_phi2 u x) - energy_hs ln j g d s (set_a_phi2 u x')
+    = sumn (c_ndd g) (fun m => sumn (c_D g) (fun i => gform ln sh (vnth (rnth rates m) i) (vnth (rnth x m) i) (vnth (rnth x' m) i))).
+Proof. exact hs_phiaux2. Qed.
+Print Assumptions C08_horseshoe_phiaux2.
+
+Theorem C08_horseshoe_phi2 : forall (ln : Qc -> Qc) g d orc,
+  (forall a b, 0 < a -> 0 < b -> ln (a * b) = ln a + ln b) ->
+  forall s d1 k1 a sh rates k2,
+  prog_prec_V2 g d orc s = Draw d1 k1 -> k1 (VM a) = Draw (DGammaMat sh rates) k2 ->
+  (forall i, (i < c_D g)%nat -> 0 < vnth (eta2 s) i) ->
+  forall u x x',
+    (forall m i, (m < c_ndd g)%nat -> (i < c_D g)%nat -> 0 < vnth (rnth x m) i) ->
+    (forall m i, (m < c_ndd g)%nat -> (i < c_D g)%nat -> 0 < vnth (rnth x' m) i) ->
+    energy_hs ln jitter g d (set_phi2 s x) (set_a_phi2 u a) - energy_hs ln jitter g d (set_phi2 s x') (set_a_phi2 u a)
+    = sumn (c_ndd g) (fun m => sumn (c_D g) (fun i => gform ln sh (vnth (rnth rates m) i) (vnth (rnth x m) i) (vnth (rnth x' m) i))).
+Proof. exact hs_phi2. Qed.
+Print Assumptions C08_horseshoe_phi2.
+
+Theorem C08_horseshoe_etaaux2 : forall ln g d orc j s d1 k1 v1 d2 k2 v2 sh rates k3,
+  length (eta2 s) = c_D g ->
+  prog_prec_V2 g d orc s = Draw d1 k1 -> k1 v1 = Draw d2 k2 -> k2 v2 = Draw (DGammaVec sh rates) k3 ->
+  forall s1 u t t', eta2 s1 = eta2 s ->
+    energy_hs ln j g d s1 (set_a_eta2 u t) - energy_hs ln j g d s1 (set_a_eta2 u t')
+    = sumn (c_D g) (fun i => gform ln sh (vnth rates i) (vnth t i) (vnth t' i)).
+Proof. exact hs_etaaux2. Qed.
+Print Assumptions C08_horseshoe_etaaux2.
+
+Theorem C08_horseshoe_eta2 : forall (ln : Qc -> Qc) g d orc,
+  (forall a b, 0 < a -> 0 < b -> ln (a * b) = ln a + ln b) ->
+  forall s d1 k1 v1 d2 k2 v2 d3 k3 b sh rates k4 v4 sfin,
+  prog_prec_V2 g d orc s = Draw d1 k1 -> k1 v1 = Draw d2 k2 -> k2 v2 = Draw d3 k3 ->
+  k3 (VV b) = Draw (DGammaVec sh rates) k4 -> k4 v4 = Ret sfin ->
+  (forall m i, (m < c_ndd g)%nat -> (i < c_D g)%nat -> 0 < vnth (rnth (phi2 sfin) m) i) ->
+  forall u t t', (forall i, (i < c_D g)%nat -> 0 < vnth t i) -> (forall i, (i < c_D g)%nat -> 0 < vnth t' i) ->
+    energy_hs ln jitter g d (set_eta2 sfin t) (set_a_eta2 u b) - energy_hs ln jitter g d (set_eta2 sfin t') (set_a_eta2 u b)
+    = sumn (c_D g) (fun i => gform ln sh (vnth rates i) (vnth t i) (vnth t' i)).
+Proof. exact hs_eta2. Qed.
+Print Assumptions C08_horseshoe_eta2.
+
+Theorem C08_horseshoe_stored2 : forall g d orc s d1 k1 v1 d2 k2 x d3 k3 v3 d4 k4 y sfin,
+  prog_prec_V2 g d orc s = Draw d1 k1 -> k1 v1 = Draw d2 k2 -> k2 (VM x) = Draw d3 k3 ->
+  k3 v3 = Draw d4 k4 -> k4 (VV y) = Ret sfin ->
+  (forall i, (i < c_D g)%nat -> vnth (eta2 sfin) i = clipC orc (nobs d) (vnth y i)) /\
+  (forall m i, (m < c_ndd g)%nat -> (i < c_D g)%nat -> vnth (rnth (phi2 sfin) m) i = clipC orc (n_occ d m) (vnth (rnth x m) i)) /\
+  off2 sfin s.
+Proof. exact hs_stored2. Qed.
+Print Assumptions C08_horseshoe_stored2.
+
+(* --- V1 family --- *)
+Theorem C08_horseshoe_phiaux1 : forall ln g d orc j s sh rates k,
+  length (phi1 s) = c_ndd g -> (forall m, (m < c_ndd g)%nat -> length (rnth (phi1 s) m) = c_D g) ->
+  prog_prec_V1 g d orc s = Draw (DGammaMat sh rates) k ->
+  forall u x x',
+    energy_hs ln j g d s (set_a_phi1 u x) - energy_hs ln j g d s (set_a_phi1 u x')
+    = sumn (c_ndd g) (fun m => sumn (c_D g) (fun i => gform ln sh (vnth (rnth rates m) i) (vnth (rnth x m) i) (vnth (rnth x' m) i))).
+Proof. exact hs_phiaux1. Qed.
+Print Assumptions C08_horseshoe_phiaux1.
+
+Theorem C08_horseshoe_phi1 : forall (ln : Qc -> Qc) g d orc,
+  (forall a b, 0 < a -> 0 < b -> ln (a * b) = ln a + ln b) ->
+  forall s d1 k1 a sh rates k2,
+  prog_prec_V1 g d orc s = Draw d1 k1 -> k1 (VM a) = Draw (DGammaMat sh rates) k2 ->
+  (forall i, (i < c_D g)%nat -> 0 < vnth (eta1 s) i) ->
+  forall u x x',
+    (forall m i, (m < c_ndd g)%nat -> (i < c_D g)%nat -> 0 < vnth (rnth x m) i) ->
+    (forall m i, (m < c_ndd g)%nat -> (i < c_D g)%nat -> 0 < vnth (rnth x' m) i) ->
+    energy_hs ln jitter g d (set_phi1 s x) (set_a_phi1 u a) - energy_hs ln jitter g d (set_phi1 s x') (set_a_phi1 u a)
+    = sumn (c_ndd g) (fun m => sumn (c_D g) (fun i => gform ln sh (vnth (rnth rates m) i) (vnth (rnth x m) i) (vnth (rnth x' m) i))).
+Proof. exact hs_phi1. Qed.
+Print Assumptions C08_horseshoe_phi1.
+
+Theorem C08_horseshoe_etaaux1 : forall ln g d orc j s d1 k1 v1 d2 k2 v2 sh rates k3,
+  length (eta1 s) = c_D g ->
+  prog_prec_V1 g d orc s = Draw d1 k1 -> k1 v1 = Draw d2 k2 -> k2 v2 = Draw (DGammaVec sh rates) k3 ->
+  forall s1 u t t', eta1 s1 = eta1 s ->
+    energy_hs ln j g d s1 (set_a_eta1 u t) - energy_hs ln j g d s1 (set_a_eta1 u t')
+    = sumn (c_D g) (fun i => gform ln sh (vnth rates i) (vnth t i) (vnth t' i)).
+Proof. exact hs_etaaux1. Qed.
+Print Assumptions C08_horseshoe_etaaux1.
+
+Theorem C08_horseshoe_eta1 : forall (ln : Qc -> Qc) g d orc,
+  (forall a b, 0 < a -> 0 < b -> ln (a * b) = ln a + ln b) ->
+  forall s d1 k1 v1 d2 k2 v2 d3 k3 b sh rates k4 v4 sfin,
+  prog_prec_V1 g d orc s = Draw d1 k1 -> k1 v1 = Draw d2 k2 -> k2 v2 = Draw d3 k3 ->
+  k3 (VV b) = Draw (DGammaVec sh rates) k4 -> k4 v4 = Ret sfin ->
+  (forall m i, (m < c_ndd g)%nat -> (i < c_D g)%nat -> 0 < vnth (rnth (phi1 sfin) m) i) ->
+  forall u t t', (forall i, (i < c_D g)%nat -> 0 < vnth t i) -> (forall i, (i < c_D g)%nat -> 0 < vnth t' i) ->
+    energy_hs ln jitter g d (set_eta1 sfin t) (set_a_eta1 u b) - energy_hs ln jitter g d (set_eta1 sfin t') (set_a_eta1 u b)
+    = sumn (c_D g) (fun i => gform ln sh (vnth rates i) (vnth t i) (vnth t' i)).
+Proof. exact hs_eta1. Qed.
+Print Assumptions C08_horseshoe_eta1.
+
+Theorem C08_horseshoe_stored1 : forall g d orc s d1 k1 v1 d2 k2 x d3 k3 v3 d4 k4 y sfin,
+  prog_prec_V1 g d orc s = Draw d1 k1 -> k1 v1 = Draw d2 k2 -> k2 (VM x) = Draw d3 k3 ->
+  k3 v3 = Draw d4 k4 -> k4 (VV y) = Ret sfin ->
+  (forall i, (i < c_D g)%nat -> vnth (eta1 sfin) i = clipC orc (nobs d) (vnth y i)) /\
+  (forall m i, (m < c_ndd g)%nat -> (i < c_D g)%nat -> vnth (rnth (phi1 sfin) m) i = clipC orc (n_occ d m) (vnth (rnth x m) i)) /\
+  off1 sfin s.
+Proof. exact hs_stored1. Qed.
+Print Assumptions C08_horseshoe_stored1.
+
+(* the complete joint extends the conditional one: a move that leaves the horseshoe precisions
+   alone has the same energy difference under energy_hs and energy, so every Gaussian / gamma block
+   theorem above is a statement about the complete joint as well *)
+Theorem C08_horseshoe_joint_extends : forall ln g d j s1 s2 u,
+  phi0 s1 = phi0 s2 -> eta0 s1 = eta0 s2 -> phi2 s1 = phi2 s2 -> eta2 s1 = eta2 s2 ->
+  phi1 s1 = phi1 s2 -> eta1 s1 = eta1 s2 ->
+  energy_hs ln j g d s1 u - energy_hs ln j g d s2 u = energy ln g d s1 - energy ln g d s2.
+Proof. exact energy_hs_extends. Qed.
+Print Assumptions C08_horseshoe_joint_extends.
+
+(* what the "+ 1e-3 for stability" means: energy_hs with j = jitter is the plain horseshoe model
+   (j = 0) tilted by exp(-jitter * (sum of all horseshoe precisions)); against the plain model the
+   phi / eta draws therefore have the exact shape and a rate larger by exactly 0.001 *)
+Theorem C08_horseshoe_jitter_is_tilt : forall ln g d j s u,
+  energy_hs ln j g d s u = energy_hs ln 0 g d s u + qofZ 2 * j * hs_total g s.
+Proof. exact energy_hs_tilt. Qed.
+Print Assumptions C08_horseshoe_jitter_is_tilt.
 
 (* ------------------------------------------------------------------ clipping *)
 (* after its own step every precision lies in [1/sqrt(1+k), 1e6] (k = n_obs, or the number of
@@ -301,4 +520,35 @@ Proof. vm_compute. reflexivity. Qed.
 Example C08_example_mvn :
   (qeq_list (sample_mvn 2 [[qofZ 2; 0]; [1; qofZ 3]] [1; hq] [qofZ 4; qofZ 5]) [Q2Qc (5 # 4); hq]
    && qeq_list (mvn_mean 2 [[qofZ 2; 0]; [1; qofZ 3]] [qofZ 4; qofZ 5]) [Q2Qc (5 # 6); Q2Qc (1 # 3)]) = true.
+Proof. vm_compute. reflexivity. Qed.
+
+(* horseshoe theorems: their hypotheses hold on the example state (initial horseshoe values of the
+   code: phi = 100, eta = 1), for a function ln that is additive on positives *)
+Example C08_example_horseshoe_hypotheses :
+  length (phi0 ex_state) = c_ndd ex_cfg /\ 0 < eta0 ex_state /\
+  (length (phi2 ex_state) = c_ndd ex_cfg /\ (forall m, (m < c_ndd ex_cfg)%nat -> length (rnth (phi2 ex_state) m) = c_D ex_cfg) /\
+   length (eta2 ex_state) = c_D ex_cfg /\ forall i, (i < c_D ex_cfg)%nat -> 0 < vnth (eta2 ex_state) i) /\
+  (length (phi1 ex_state) = c_ndd ex_cfg /\ (forall m, (m < c_ndd ex_cfg)%nat -> length (rnth (phi1 ex_state) m) = c_D ex_cfg) /\
+   length (eta1 ex_state) = c_D ex_cfg /\ forall i, (i < c_D ex_cfg)%nat -> 0 < vnth (eta1 ex_state) i) /\
+  (forall a b : Qc, 0 < a -> 0 < b -> (fun _ : Qc => 0) (a * b) = (fun _ : Qc => 0) a + (fun _ : Qc => 0) b).
+Proof.
+  repeat split; try (apply below2; reflexivity); reflexivity.
+Qed.
+
+(* _prec_V0_step executed on the example with V0 = (1, 2) and drawn values aux = (1, 1),
+   phi0 = (1/2, 3), etaaux = 1, eta0 = 2:
+     Gamma(1, 1 + 100) twice;  Gamma(1, 1 + 1*1/2 + 0.001), Gamma(1, 1 + 1*4/2 + 0.001);
+     Gamma(1, 1 + 1);  Gamma(3/2, 1 + (1/2 * 1 + 3 * 4)/2 + 0.001);
+   the stored phi0 is positive, so the hypothesis of C08_horseshoe_eta0 holds there *)
+Example C08_example_horseshoe_step :
+  let res := run_prog (prog_prec_V0 ex_cfg ex_data ex_orc (set_V0 ex_state [1; qofZ 2]))
+                      [VV [1; 1]; VV [hq; qofZ 3]; VQ 1; VQ (qofZ 2)] in
+  match res with
+  | ([DGammaVec s1 r1; DGammaVec s2 r2; DGamma s3 r3; DGamma s4 r4], Some sfin) =>
+      qeq_list (s1 :: r1) [1; qofZ 101; qofZ 101] && qeq_list (s2 :: r2) [1; Q2Qc (1501 # 1000); Q2Qc (3001 # 1000)]
+      && qeq_list [s3; r3; s4; r4] [1; qofZ 2; Q2Qc (3 # 2); Q2Qc (7251 # 1000)]
+      && qeq_list (phi0 sfin) [hq; qofZ 3] && qeq_list [eta0 sfin] [qofZ 2]
+      && forallb (fun p => qltb 0 p) (phi0 sfin)
+  | _ => false
+  end = true.
 Proof. vm_compute. reflexivity. Qed.
